@@ -10,7 +10,7 @@ S="$WT/seeded/$N"
 OUT="/verif/seeded/$ID-${SEEDTAG:-}$N"
 export CARGO_NET_OFFLINE=true CARGO_TARGET_DIR="$WT/target"
 [ -f "$S/patch.diff" ] || { echo "no patch at $S"; exit 2; }
-cd "$WT" && git checkout -q -- . 
+cd "$WT" && git checkout -q -- . && git clean -fdq -e seeded -e target
 PLACE=$(jq -r '.demo_placement // empty' "$S/meta.json" | awk '{print $1}')
 CMD=$(jq -r '.demo_cmd // empty' "$S/meta.json" | sed 's/ *(fallback.*$//; s/ *(.*$//')
 echo "== demo placement: $PLACE ; cmd: $CMD"
